@@ -33,7 +33,7 @@ type caseResult struct {
 	Stats      map[string]int64 `json:"stats,omitempty"`
 	Sample     any              `json:"sample,omitempty"`
 	MaxRatio   float64          `json:"max_ratio,omitempty"`
-	Cells      []string         `json:"cells,omitempty"` // distinct coverage cells visited
+	Cells      []string         `json:"cells,omitempty"`      // distinct coverage cells visited
 	DistinctN  int64            `json:"distinct_n,omitempty"` // distinct non-trivial items inside this case (disjoint across cases)
 }
 
@@ -110,6 +110,7 @@ type kfEntry struct {
 	Class    string
 	Sub      string
 	Site     string
+	Trigger  []string
 	Witness  string
 	What     string
 	Active   bool
@@ -147,6 +148,9 @@ func loadKnownFindings() kfFile {
 		case strings.HasPrefix(line, "finding:"):
 			m := parseKV(strings.TrimPrefix(line, "finding:"))
 			e := kfEntry{ID: m["id"], Class: m["class"], Sub: m["sub"], Site: m["site"], Witness: m["witness"], What: m["what"]}
+			if m["trigger"] != "" {
+				e.Trigger = strings.Split(m["trigger"], ",")
+			}
 			e.Props = strings.Split(m["properties"], ",")
 			e.Variants = strings.Split(m["variants"], ",")
 			kf.Entries = append(kf.Entries, e)
@@ -178,6 +182,17 @@ func (e kfEntry) matches(f finding) bool {
 	}
 	if e.Site != "" && !strings.Contains(strings.ReplaceAll(f.Site, " ", "_"), e.Site) {
 		return false
+	}
+	if len(e.Trigger) > 0 {
+		hit := false
+		for _, t := range e.Trigger {
+			if contains(f.Trig, t) {
+				hit = true
+			}
+		}
+		if !hit {
+			return false
+		}
 	}
 	return true
 }
